@@ -107,6 +107,15 @@ def normal_form_ob(v):
     after = getattr(obj, attr)
     v.check(normal_form(after), "stored cardinality is not in normal form")
     v.label("unset" if after is None else "set")
+    # only None, an empty value, a positive int or a two-member sequence may be accepted
+    if shape in ("tuple1", "tuple3"):
+        raise Violation("a tuple that is not a (min, max) pair was accepted instead of raising ValueError")
+    if shape == "str" and len(value) > 0:
+        raise Violation("a non-empty string was accepted as a cardinality")
+    if shape == "float" and value != 0.0:
+        raise Violation("a non-zero float was accepted as a cardinality")
+    if shape == "int" and value < 0:
+        raise Violation("a negative int was accepted as a cardinality")
     if shape == "pair":
         a, b = value[0], value[1]
         if a is not None and b is not None and 0 < a <= b:
